@@ -104,6 +104,10 @@ func VerifC19Stop(mode int, n int, ticks int) {
 			atomic.StoreInt32(&stopped, 1)
 			verifrt.Assert(el <= budget, "Stop completes within the shutdown timeout even with a probe in flight to a backend that never answers")
 		})
+	case 5: // active checks disabled: Stop still shuts the pool down
+		lb.healthChecks.activeEnabled = false
+		lb.Stop()
+		atomic.StoreInt32(&stopped, 1)
 	case 1: // two concurrent Stops
 		verifrt.Go(func() { lb.Stop() })
 		verifrt.Go(func() { lb.Stop(); atomic.StoreInt32(&stopped, 1) })
